@@ -8,6 +8,7 @@ undeclared enum values, exact consumption) — as far as the wire operations go;
 exercised by the correspondence streams.
 
 When a reader differs, `explain` locates the first difference and `classify` says which property it concerns."""
+import re
 import os, sys, collections
 sys.path.insert(0, os.path.join(os.path.dirname(__file__), "..", "tools"))
 from vlib import *
@@ -261,6 +262,10 @@ def compute(repo=None, only=None):
             rust_r.setdefault((d["ctx"], d["rust_type"]), d)
         for d in rust_codec.translate_all_writers(tr, only):
             rust_w.setdefault((d["ctx"], d["rust_type"]), d)
+        import rust_size
+        rust_s = {}
+        for d in rust_size.translate_all(None, only):
+            rust_s.setdefault((d["ctx"], d["rust_type"]), d)
     finally:
         rust_codec.REPO = saved
     lines, pairs = [], []
@@ -299,7 +304,58 @@ def compute(repo=None, only=None):
     d.ask(f"load {TIE_PATH}")
     todo = [p for p in pairs if p["status"] == "?"]
     ans = d.ask_many([f"progeq {'r' if p['side'] == 'reader' else 'w'} S|{p['key']} {'R' if p['side'] == 'reader' else 'W'}|{p['key']}" for p in todo])
+    # declared size of the world messages: `size_without_header` is either a literal or `self.size()`; a literal must be the syntactic constant size
+    # of the definition (`fixedMs`; Thm/C09.lean `const_sized`: then EVERY encoding has exactly that many bytes), and a definition that is
+    # constant-sized needs no other form
+    wr = [p for p in pairs if p["side"] == "writer" and p.get("rust_file") and not p["ctx"].startswith("login") and "spec_tokens" in p]
+    fx = d.ask_many([f"bounds S|{p['key']}" for p in wr])
+    # the size FUNCTIONS (tools/rust_size.py; Model/SizeFn.lean, Thm/C07b.lean size_matches_sound): the term list of every generated `size()` must be
+    # the one the definition prescribes; definitions with conditional members are outside (`supported=0` on the definition's side as well)
+    sz = []
+    for k, c in sorted(spec.items()):
+        rs = rust_s.get(k)
+        if rs is None or "tokens" not in c or "constant" in rs:
+            continue
+        sp = {"side": "size", "ctx": k[0], "name": k[1], "key": c["key"], "rust_file": rs["file"]}
+        if "tokens" in rs:
+            sp["rust_terms"] = rs["tokens"]
+        elif "outside" in rs:
+            sp["outside"] = rs["outside"]
+        else:
+            sp["unreadable"] = rs["unreadable"]
+        sz.append(sp)
+    sa = d.ask_many([f"sizeeq S|{p['key']} {' '.join(p.get('rust_terms', ['other']))}" for p in sz])
     d.close()
+    for p, a in zip(sz, sa):
+        if "unreadable" in p:
+            p.update(status="rust-untranslated", detail="size(): " + p["unreadable"])
+        elif "outside" in p:
+            # the definition must agree that it has conditional / compressed members
+            p.update(status="outside" if ("supported=0" in a or "compressed" in p["outside"]) else "differ",
+                     detail=f"size() is outside the translated subset ({p['outside']})" + ("" if "supported=0" in a else f" although the definition has no conditional member: {a[:300]}"))
+        elif a.startswith("same") and "supported=1" in a:
+            p.update(status="same", wf="wf=1" in a)
+        else:
+            p.update(status="differ", detail=f"size() sums `{' '.join(p['rust_terms'])[:300]}`; {a[:400]}")
+    pairs += sz
+    for p, a in zip(wr, fx):
+        try:
+            src = open(os.path.join(root, p["rust_file"])).read()
+        except OSError:
+            continue
+        m = re.search(r"fn size_without_header\(&self\) -> u32 \{\s*([^}]*?)\s*\}", src)
+        mf = re.search(r"fixed=(\w+) prim=(\S+)", a)
+        if not m or not mf:
+            p["declared"] = {"status": "unreadable", "rust": m.group(1) if m else None, "model": a}
+            continue
+        rust, fixed = m.group(1), mf.group(1)
+        if re.fullmatch(r"\d+", rust):
+            ok = fixed == rust
+        elif rust == "self.size() as u32":
+            ok = True          # the value-dependent size function (dynamic side: the writers assert size() == bytes written)
+        else:
+            ok = False
+        p["declared"] = {"status": "same" if ok else "differ", "rust": rust, "model_fixed": fixed}
     for p, a in zip(todo, ans):
         if a.startswith("same"):
             p["status"] = "same"
@@ -343,7 +399,7 @@ def report(rep, pid, pairs):
     """add the tie's obligations to a Report; only the violations that concern `pid` are raised there (C01 raises all that are not C04's)"""
     n_same = sum(1 for p in pairs if p["status"] == "same")
     n_wf = sum(1 for p in pairs if p["status"] == "same" and p.get("wf"))
-    both = collections.Counter((p["ctx"], p["name"]) for p in pairs if p["status"] == "same" and p.get("wf"))
+    both = collections.Counter((p["ctx"], p["name"]) for p in pairs if p["status"] == "same" and p.get("wf") and p["side"] in ("reader", "writer"))
     n_rt = sum(1 for v in both.values() if v == 2)
     outside = collections.Counter()
     raised = 0
@@ -351,6 +407,9 @@ def report(rep, pid, pairs):
         if p["status"] == "same":
             continue
         k = (p["ctx"], p["name"])
+        if p["status"] == "outside":
+            outside["size() with conditional / compressed members (not compared term by term)"] += 1
+            continue
         if p["status"] == "spec-unsupported":
             outside["definition outside the closed syntax: " + p["detail"][:40]] += 1
             continue
@@ -379,19 +438,38 @@ def report(rep, pid, pairs):
             continue
         if k in KNOWN_DIFFERENT and p["side"] == "reader":
             continue
-        if pid in ("C03", "C04") and p["side"] == "writer":
-            continue          # writers are C01's (and C02's) subject
+        if pid in ("C03", "C04") and p["side"] in ("writer", "size"):
+            continue          # writers and size functions are C01's (and C02's / C07's) subject
         raised += 1
         sd = p["side"]
+        if sd == "size":
+            rep.violation(f"{pid}/size-tie/{p['ctx']}:{p['name']}", f"{p['key']} ({p.get('rust_file')}): the generated size() is not the size function of its definition: {p.get('detail', '')[:500]}",
+                          {"container": p["key"], "rust_file": p.get("rust_file"), "status": p["status"], "difference": p.get("detail"), "theorem": "WowVerif.Sem.size_matches_sound (Thm/C07b.lean)",
+                           "rust_terms": " ".join(p.get("rust_terms", []))[:2000]}, no_input=True)
+            continue
         what = {"differ": f"the generated {sd} is not the {'decoder' if sd == 'reader' else 'encoder'} of its definition", "rust-untranslated": f"the generated {sd} is outside the translated subset (the proof obligation `{sd}Matches` cannot be evaluated)",
                 "no-reader": "no generated type", "no-definition": "reader without definition"}[p["status"]]
         rep.violation(f"{pid}/{sd}-tie/{p['ctx']}:{p['name']}", f"{p['key'] or p['name']} ({p.get('rust_file')}): {what}: {p.get('detail', '')[:400]}",
                       {"container": p["key"], "wowm": p.get("wowm"), "rust_file": p.get("rust_file"), "status": p["status"], "difference": p.get("detail"),
                        "theorem": "WowVerif.Sem.readerE_decodes_as_spec / writer_encodes_as_spec via progeq (Thm/C01c.lean, Thm/C01d.lean)", "spec_tokens": " ".join(p.get("spec_tokens", []))[:3000], "rust_tokens": " ".join(p.get("rust_tokens", []))[:3000]},
                       no_input=True)
+    n_decl = n_decl_ok = 0
+    for p in pairs:
+        dcl = p.get("declared")
+        if not dcl:
+            continue
+        n_decl += 1
+        if dcl["status"] == "same":
+            n_decl_ok += 1
+        elif pid == "C01":
+            rep.violation(f"C01/declared-size-const/{p['ctx']}:{p['name']}", f"{p['key']} ({p.get('rust_file')}): size_without_header is `{dcl.get('rust')}` but the definition's constant size is {dcl.get('model_fixed', dcl.get('model'))}",
+                          {"container": p["key"], "rust_file": p.get("rust_file"), "declared": dcl, "theorem": "WowVerif.Sem.const_sized (Thm/C09.lean)",
+                           "input": "every value of this message: the header announces the declared size, the body has the definition's size"}, no_input=False)
     # obligations that fail by a recorded known finding are not counted (the finding is reported separately)
     n_known = sum(1 for p in pairs if p["status"] == "differ" and p["side"] == "reader" and (p["ctx"], p["name"]) in KNOWN_DIFFERENT)
     return {"readers_compared": sum(1 for p in pairs if p["status"] in ("same", "differ")) - n_known, "readers_equal_to_normal_form_of_definition": n_same,
             "readers": sum(1 for p in pairs if p["status"] == "same" and p["side"] == "reader"), "writers": sum(1 for p in pairs if p["status"] == "same" and p["side"] == "writer"),
+            "size_functions": sum(1 for p in pairs if p["status"] == "same" and p["side"] == "size"),
             "messages_whose_writer_and_reader_both_match_a_well_formed_definition (writer_reader_roundtrip applies)": n_rt,
+            "declared_sizes_compared": n_decl, "declared_sizes_equal_to_the_definition": n_decl_ok,
             "outside": dict(outside), "raised_here": raised}
